@@ -247,6 +247,14 @@ Theorem C19_ja_raw_request : forall pmt choose, choose_ok choose -> forall sch i
                   oracle pmt sch (request_of in_range r) (Some (st, media_type, Some bd)) = None.
 Proof. exact raw_request_spec. Qed.
 
+(** ** NewSchema (schema.go, the validate methods of resource.go / resolvers.go): it accepts a schema
+    definition exactly when every type, attribute and relationship name is a member name of the
+    JSON:API text, "id" and "type" name no attribute and no relationship, no name is both an attribute
+    and a relationship, every attribute has a resolver and every relationship a resolver that is not
+    a to-one / to-many resolver without Resolve function ([type_def_valid], JsonApiExtras.v) *)
+Theorem C19_new_schema_accepts : forall d, new_schema_ok d = true <-> Forall type_def_valid d.
+Proof. exact new_schema_accepts. Qed.
+
 Theorem C19_nil_data_refuted_before_fix :
   exists rq, serve_http pinned_nil_data toy_pmt toy_choose toy_schema rq = Panic /\
              answer_status (serve_http fixed toy_pmt toy_choose toy_schema rq) = Some 500.
@@ -261,6 +269,7 @@ Print Assumptions C19_ja_trailing_bytes.
 Print Assumptions C19_ja_history.
 Print Assumptions C19_ja_history_independent.
 Print Assumptions C19_nil_data_refuted_before_fix.
+Print Assumptions C19_new_schema_accepts.
 Print Assumptions C19_ja_handler_never_writes_resolver_maps.
 Print Assumptions C19_ja_heap_refinement.
 Print Assumptions C19_ja_heap_history.
